@@ -16,6 +16,7 @@ use std::io::SeekFrom;
 // ------------------------------------------------------------------ C10
 
 struct Snapshot {
+    predicted: bool,
     bytes: Vec<u8>,
     writes: u64,
     class: String,
@@ -46,7 +47,7 @@ impl Monitor for NoEffectMonitor {
     }
     fn claims(&self, d: &engine::Divergence) -> bool {
         // the step was predicted as a refusal and the engine saw it change handle state
-        self.snap.is_some() && (d.signature.contains("position-moved") || d.signature.contains("len-not-current") || d.signature.contains("position-mismatch"))
+        self.snap.as_ref().map_or(false, |s| s.predicted) && (d.signature.contains("position-moved") || d.signature.contains("len-not-current") || d.signature.contains("position-mismatch"))
     }
     fn before(&mut self, sess: &mut Session, step: &Step, _rep: &mut Report) {
         self.snap = None;
@@ -92,13 +93,33 @@ impl Monitor for NoEffectMonitor {
         };
         if let Some(class) = class {
             let handles = handle_states(sess);
-            self.snap = Some(Snapshot { bytes: sess.shared.bytes(), writes: sess.shared.writes(), class, handles });
+            self.snap = Some(Snapshot { predicted: true, bytes: sess.shared.bytes(), writes: sess.shared.writes(), class, handles });
+        } else if let Step::Api(op) = step {
+            // not predicted to be refused: if the implementation refuses it all the same
+            // (a matter for C01), the refusal must still have had no effect
+            if op.is_mutation() {
+                self.snap = Some(Snapshot { predicted: false, bytes: sess.shared.bytes(), writes: sess.shared.writes(), class: format!("{} | unpredicted", op.name()), handles: Vec::new() });
+            }
         }
+    }
+    fn on_divergence(&mut self, sess: &mut Session, step: &Step, d: &engine::Divergence, rep: &mut Report) -> Option<Fail> {
+        let snap = self.snap.take()?;
+        if snap.predicted {
+            return None;
+        }
+        let kind = ["NotFound", "AlreadyExists", "InvalidInput"].iter().find(|k| d.signature.ends_with(&format!("ok | err:{}", k)))?;
+        rep.count("unpredicted_refusals_checked");
+        let now = sess.shared.bytes();
+        if now != snap.bytes {
+            let first = now.iter().zip(snap.bytes.iter()).position(|(a, b)| a != b).unwrap_or(now.len().min(snap.bytes.len()));
+            return Some((format!("refused {} ({}) | bytes changed", snap.class, kind), format!("{:?} was refused with {} ({}) but the bytes differ (len {} -> {}, first difference at offset {})", step, kind, d.observed, snap.bytes.len(), now.len(), first)));
+        }
+        None
     }
     fn after(&mut self, sess: &mut Session, step: &Step, rep: &mut Report) -> Result<(), Fail> {
         // `drive` only calls us when the outcome was admissible, i.e. the call was refused
         // with one of the predicted kinds.
-        if let Some(snap) = self.snap.take() {
+        if let Some(snap) = self.snap.take().filter(|s| s.predicted) {
             self.refusals += 1;
             rep.count("refusals_checked");
             rep.count(&format!("refusal.{}", snap.class));
@@ -154,6 +175,9 @@ fn probe_expect(sess: &Session, op: &Op) -> Expect {
 }
 
 pub fn run_c10(ctx: &Ctx, rep: &mut Report) {
+    if crate::props::wide::maybe_run(ctx, rep, crate::props::wide::Role::NoEffect, 4, 8) {
+        return;
+    }
     let mut i = 0;
     while let Some(case) = ctx.next_case(&mut i) {
         let mut rng = ctx.case_rng(case);
@@ -330,12 +354,23 @@ fn c15_case(ctx: &Ctx, rep: &mut Report, rng: &mut Rng, version: Version, done: 
         run_step(&mut sess, Step::Api(Op::RemoveStorageAll("/".into())), done, rep)?;
         rep.count("prefix.emptied");
     }
-    let keep_len = *rng.pick(&[0u64, 10, 64, 100, 1000, 4000, 4095, 4096, 5000, 9000]);
+    // megabyte-sized cycles (thousands of sectors freed and re-used per repetition,
+    // growth steps above 1 MiB) in a few cases
+    let mega = rng.chance(1, if ctx.quick() { 30 } else { 12 });
+    let keep_len = if mega { *rng.pick(&[4_200_000u64, 4_718_592, 6_000_000, 1_100_000]) } else { *rng.pick(&[0u64, 10, 64, 100, 1000, 4000, 4095, 4096, 5000, 9000]) };
     run_step(&mut sess, Step::HOpen { slot: 6, path: "/keep".into(), how: OpenHow::Create }, done, rep)?;
     run_step(&mut sess, Step::HWriteTag { slot: 6, len: keep_len as usize, tag: 3 }, done, rep)?;
     run_step(&mut sess, Step::HClose { slot: 6 }, done, rep)?;
-    let template = rng.below(10);
-    let params = CycleParams { size: *rng.pick(&[1u64, 60, 64, 100, 500, 1000, 4000, 4095, 4096, 5000, 10000, 70000]), keep_len, delta: *rng.pick(&[1u64, 63, 64, 500, 4000, 4096, 6000]), reverse: rng.chance(1, 2) };
+    let mut template = rng.below(10);
+    if mega {
+        template = *rng.pick(&[0u64, 2, 2, 3, 5, 0]);
+    }
+    let mut params = CycleParams { size: *rng.pick(&[1u64, 60, 64, 100, 500, 1000, 4000, 4095, 4096, 5000, 10000, 70000]), keep_len, delta: *rng.pick(&[1u64, 63, 64, 500, 4000, 4096, 6000]), reverse: rng.chance(1, 2) };
+    if mega {
+        params.size = *rng.pick(&[2_200_000u64, 2_500_000, 3_145_728, 5_000_000]);
+        params.delta = *rng.pick(&[1_048_576u64, 1_100_000, 2_621_440, 1_500_000]);
+        rep.count("cycles_megabyte_sized");
+    }
     let reps = rng.range(5, 10);
     let container = if params.size < 4096 { "mini" } else { "regular" };
     let before = sess.model.dump();
@@ -544,7 +579,20 @@ pub fn run_c17(ctx: &Ctx, rep: &mut Report) {
         cfg.soft_max_objects = *rng.pick(&[10, 40, 80]);
         cfg.max_size = 700;
         let mut mon = MetaMonitor { checked: 0, expect_ok: false };
-        let info = drive(ctx, case, rng, rep, DriveOpts { version, bufsize: None, max_steps, cfg, handle_mix_pct: 0, max_handles: 0, start: None }, &mut mon);
+        // a fifth of the histories start from another writer's file whose free directory
+        // slots still carry the metadata of deleted objects: new objects that reuse such a
+        // slot must report their own defaults
+        let mut start = None;
+        let mut version = version;
+        if rng.chance(1, 5) {
+            if let Some((s, v)) = hist::foreign_start_with(rng, true) {
+                start = Some(s);
+                version = v;
+                cfg.names = crate::synth::SYNTH_NAMES;
+                rep.count("start.foreign_dirty_free_slots");
+            }
+        }
+        let info = drive(ctx, case, rng, rep, DriveOpts { version, bufsize: None, max_steps, cfg, handle_mix_pct: 0, max_handles: 0, start }, &mut mon);
         let n_meta = info.steps.iter().filter(|s| matches!(s, Step::Api(Op::SetClsid(..) | Op::SetState(..) | Op::SetCreated(..) | Op::SetModified(..) | Op::Touch(_)))).count();
         for s in &info.steps {
             if let Step::Api(Op::SetCreated(_, ns) | Op::SetModified(_, ns)) = s {
